@@ -15,7 +15,7 @@ QUANT = {"self.delay_dist.quantile": "quantile"}
 KERNELS = {
     "Dist": [
         # ---- StaticDist.sample / reset: clip at zero, key threading
-        dict(name="sample_clip", file=BASE, func="StaticDist.sample", loc=("assign", "samples", 1), rename={"samples": "raw"}, props=P, tr_class=TrDist),
+        dict(name="delay_clip", file=BASE, func="StaticDist.sample", loc=("assign", "samples", 1), rename={"samples": "raw"}, props=P, tr_class=TrDist),
         dict(name="sample_seed_key", file=BASE, func="StaticDist.sample", loc=("kwarg", "self.dist.sample", 0, "seed"), rename={"self.rng": "rng"}, props=P, **KEY),
         dict(name="sample_new_key", file=BASE, func="StaticDist.sample", loc=("kwarg", "self.replace", 0, "rng"), rename={"self.rng": "rng"}, props=P, **KEY),
         dict(name="reset_key", file=BASE, func="StaticDist.reset", loc=("kwarg", "self.replace", 0, "rng"), rename={"rng": "rng"}, props=P, **KEY),
